@@ -359,15 +359,20 @@ class C08(Prop):
             if law[1:] != [True, True, True]:
                 return f"bind/unbind law fails for {law[0]!r}: (not required after bind, optional after bind, restored by unbind) = {law[1:]}"
         def bypass(omitted: str, supplied: set[str]) -> str | None:
-            """A supplied REQUIRED name that is the output of a node consuming the omitted input: supplying it by-passes that node.
-            (Parameters of a listed cycle entry point are not by-passes: they boot-strap the cycle.)"""
+            """The mechanism of C08-F1: EVERY consumer of the omitted input is a node one of whose outputs was supplied as a required
+            name, so the validator treats all of them as by-passed and waives the input.  (Parameters of a listed cycle entry point are
+            not by-passes: they boot-strap the cycle.  A consumer none of whose outputs is supplied — a gate, an output-less node, any
+            other live node — still needs the input: that is not this mechanism.)"""
             supplied = supplied & set(obs["effspec"]["required"])
+            consumers = []
             for n in case["program"][-1]["nodes"]:
                 ren = dict(n.get("inRen", []))
                 ins = {ren.get(q[0], q[0]) for q in n.get("params", [])}
-                hit = set(n.get("dataOuts", [])) & supplied
-                if omitted in ins and hit:
-                    return f" — the supplied {sorted(hit)[0]!r} by-passes its producer {n['name']!r}, whose input {omitted!r} is then not demanded (entry-point by-pass)"
+                if omitted in ins:
+                    consumers.append((n["name"], set(n.get("dataOuts", [])) & supplied))
+            if consumers and all(hit for _, hit in consumers):
+                name, hit = consumers[0]
+                return f" — the supplied {sorted(hit)[0]!r} by-passes its producer {name!r}, whose input {omitted!r} is then not demanded (entry-point by-pass)"
             return None
 
         req_all = set(obs["effspec"]["required"])
